@@ -559,6 +559,53 @@ def storeGet (H : Bytes → UInt64) (W : World) (name : Bytes) (qtype qclass : U
       | some f => Outcome.fail f
       | none => Outcome.miss
 
+/-! ## Lazy expiry of subtree cuts
+
+`nxDomainCutCache.lookup` (the decoded route) removes every EXPIRED cut it meets on its
+suffix walk (`removeEntryLocked`) and goes on; `lookupWire` only skips them.  `active` is
+`now.Before(entry.expires)`. -/
+
+/-- the `entries` map after the walk of `nxDomainCutCache.lookup`: candidate by candidate,
+an entry that is still live ends the walk, an expired one is removed and the walk goes on. -/
+def cutWalkPrune (cs : List Cut) (qclass : UInt16) : List Bytes → List Cut
+  | [] => cs
+  | cand :: t =>
+    match findCut cs cand qclass with
+    | some c =>
+      if c.active then cs
+      else cutWalkPrune (cs.filter fun x => !(x.name == cand && x.qclass == qclass)) qclass t
+    | none => cutWalkPrune cs qclass t
+
+/-- `entries` after `nxDomainCutCache.lookup(q)`. -/
+def cutLookupPrune (cs : List Cut) (name : Bytes) (qclass : UInt16) : List Cut :=
+  if qclass == 0 then cs else cutWalkPrune cs qclass (cutSuffixes (canonicalName name))
+
+/-- `entries` after the decoded body of `Cache.ServeDNS` ran for a question: the cut rung
+(and with it the lazy removal) is reached only without an exact hit, for CD=0 and no ECS. -/
+def serveMsgCutsAfter (H : Bytes → UInt64) (W : World) (name : Bytes) (qtype qclass : UInt16) (cd : Bool)
+    (client : Scope) (hasECS : Bool) : List Cut :=
+  match decodedHit H W.st name qtype qclass cd client with
+  | some _ => W.cs.entries
+  | none => if cd || client.isSome || hasECS then W.cs.entries else cutLookupPrune W.cs.entries name qclass
+
+/-- `entries` after `Store.GetWithContext`. -/
+def storeGetCutsAfter (H : Bytes → UInt64) (W : World) (name : Bytes) (qtype qclass : UInt16) (cd : Bool)
+    (hasECS : Bool) : List Cut :=
+  match storeLookup H W.st name qtype qclass cd with
+  | some _ => W.cs.entries
+  | none => if cd || hasECS then W.cs.entries else cutLookupPrune W.cs.entries name qclass
+
+/-- `entries` after `Cache.serveWire`: the byte rungs never remove anything (`lookupWire`
+holds the read lock only); a request that falls to the decoded body behaves as `serveMsg`. -/
+def serveWireCutsAfter (H : Bytes → UInt64) (W : World) (w : Bytes) (qtype qclass : UInt16) (cd : Bool)
+    (due : Entry → Bool := fun _ => false) : List Cut :=
+  match serveWireCore H W w qtype qclass cd due with
+  | some _ => W.cs.entries
+  | none =>
+    match present w with
+    | some name => serveMsgCutsAfter H W name qtype qclass cd none false
+    | none => W.cs.entries
+
 /-! ## Writers: stores, refreshes, purge (association-list store) -/
 
 abbrev AStore := List (UInt64 × Entry)
